@@ -22,6 +22,12 @@ var<private> zs: ZS;
 @group(0) @binding(0) var<storage, read_write> buf: array<i32, 8>;
 @must_use fn mu(x: i32) -> i32 { return x + 1; }
 fn leaf(x: i32) -> i32 { return x * 2; }
+fn vleaf(x: vec2<i32>) -> i32 { return x.x; }
+fn aleaf(x: array<i32, 2>) -> i32 { return x[0]; }
+struct ZT { q: i32 }
+fn sleaf(x: ZS) -> i32 { return x.a; }
+const zcs = ZS(1, 2);
+var<private> zarr: array<i32, 4>;
 fn helper(x: i32) -> i32 {
   var acc = x;
   /*S3*/
@@ -77,6 +83,21 @@ var zzStmtRules = []zzRule{
 	{"unbalanced", "let zq = (1 + 2;", 15},
 	{"const-div-zero", "let zq = 1 / 0;", -1},
 	{"const-mod-zero", "const zq = 1 % 0;", -1},
+	{"let-undeclared-type", "let zq: ZNope = 1;", -1},
+	{"const-undeclared-type", "const zq: ZNope = 1;", -1},
+	{"let-array-size-0", "let zq: array<i32, 0> = array<i32, 0>();", -1},
+	{"array-size-div-zero", "var zq: array<i32, 4 / 0>;", -1},
+	{"call-unbalanced", "let zq = leaf(1;", 15},
+	{"index-unbalanced", "let zq = zarr[1;", 15},
+	{"template-unbalanced", "var zq: vec3<f32 = vec3<f32>(1.0);", 17},
+	{"arg-type-u32", "let zq = leaf(1u);", -1},
+	{"arg-type-f32", "let zq = leaf(1.5f);", -1},
+	{"arg-type-abstract-float", "let zq = leaf(1.5);", -1},
+	{"arg-type-vector-scalar-kind", "let zq = vleaf(vec2<f32>(1.0, 2.0));", -1},
+	{"arg-type-array-length", "let zq = aleaf(array<i32, 3>(1, 2, 3));", -1},
+	{"arg-type-other-struct", "let zq = sleaf(ZT(1));", -1},
+	{"unknown-member-const-assert", "const_assert zcs.nomember == 1;", -1},
+	{"vector-div-zero", "let zq = vec2<i32>(1, 2) / vec2<i32>(0, 1);", -1},
 }
 
 var zzExprRules = []zzRule{
@@ -86,6 +107,26 @@ var zzExprRules = []zzRule{
 	{"arg-count-more", "leaf(1, 2) +", -1},
 	{"swizzle-mix", "vec3<i32>(1, 2, 3).xg.x +", -1},
 	{"const-div-zero", "(1 / 0) +", -1},
+}
+
+// Module-scope declarations appended to the base program.
+var zzModuleAdditions = [][2]string{
+	{"private-init-unknown-function", "var<private> zp: i32 = znope();"},
+	{"private-init-undeclared-identifier", "var<private> zp: i32 = znope;"},
+	{"private-init-div-zero", "var<private> zp: i32 = 1 / 0;"},
+	{"override-init-div-zero", "override zo: i32 = 1 / 0;"},
+	{"override-init-unknown-function", "override zo: i32 = znope();"},
+	{"group-non-literal-without-binding", "const ZG = 0;\n@group(ZG) var<uniform> zu: f32;"},
+	{"workgroup-size-div-zero", "@compute @workgroup_size(1 / 0) fn third() { }"},
+	{"private-undeclared-type", "var<private> zp: ZNope;"},
+	{"struct-member-undeclared-type", "struct ZQ { a: ZNope }"},
+	{"parameter-undeclared-type", "fn zf(a: ZNope) { }"},
+	{"result-undeclared-type", "fn zf() -> ZNope { }"},
+	{"alias-undeclared-type", "alias ZA = ZNope;"},
+	{"private-array-size-0", "var<private> zp: array<i32, 0>;"},
+	{"private-array-size-negative", "var<private> zp: array<i32, -2>;"},
+	{"attribute-unbalanced", "@group(0 @binding(7) var<uniform> zu: f32;"},
+	{"var-template-unbalanced", "@group(0) @binding(7) var<storage, read_write zu: f32;"},
 }
 
 var zzModuleEdits = [][3]string{
@@ -216,10 +257,21 @@ func zzCheckRejected(name, src string, editOff int, r zzRule) {
 	zz.Assert(line >= bl && line <= el, "semantic error is reported outside the module-scope declaration that contains the construct: "+name)
 }
 
+// zzFewSites: rules that the front end does not diagnose anywhere (open findings in
+// known_findings.json) are placed at two sites only - the entry point and the helper function;
+// the other five sites would repeat the same finding.
+func zzFewSites(rule string) bool {
+	return strings.HasPrefix(rule, "arg-type-") || rule == "unknown-member-const-assert" || rule == "vector-div-zero"
+}
+
 func ZZ_C11_rule_sites_statements() {
-	sites := []string{"S0", "S1", "S2", "S3", "S4", "S5", "S6"}
+	sites := []string{"S0", "S3", "S1", "S2", "S4", "S5", "S6"}
 	r := zzStmtRules[zz.Choice("rule", len(zzStmtRules))]
-	site := sites[zz.Choice("site", len(sites))]
+	nSites := len(sites)
+	if zzFewSites(r.name) {
+		nSites = 2
+	}
+	site := sites[zz.Choice("site", nSites)]
 	zz.Cell(r.name + "@" + site)
 	marker := "/*" + site + "*/"
 	off := strings.Index(zzRuleBase, marker)
@@ -244,5 +296,20 @@ func ZZ_C11_rule_sites_module_scope() {
 	zz.Cell(e[0])
 	off := strings.Index(zzRuleBase, e[1])
 	zzCheckRejected(e[0], strings.Replace(zzRuleBase, e[1], e[2], 1), off, zzRule{name: e[0], text: e[2], syntaxAt: -1})
+	zz.Reach("end")
+}
+
+func ZZ_C11_rule_sites_module_additions() {
+	a := zzModuleAdditions[zz.Choice("addition", len(zzModuleAdditions))]
+	zz.Cell(a[0])
+	src := zzRuleBase + a[1] + "\n"
+	err := zzCompileError(src)
+	zz.Assert(err != nil, "rule-breaking program accepted: "+a[0])
+	if err != nil {
+		if line, col, _, ok := zzErrorPosition(err.Error()); ok {
+			nLines, _ := zzLineCol(src, len(src))
+			zz.Assert(line >= 1 && line <= nLines && col >= 1, "reported position lies outside the source text: "+a[0])
+		}
+	}
 	zz.Reach("end")
 }
